@@ -567,6 +567,17 @@ func runCase(c *Case) Got {
 	return got
 }
 
+// runCaseRecover: in the bulk mode (many cases in one process) a panic inside the library is an
+// observation about that case ("crash"), not a reason to lose the batch.
+func runCaseRecover(c *Case) (got Got) {
+	defer func() {
+		if r := recover(); r != nil {
+			got = Got{Runs: []Run{{Err: "crash", Par: []ParOut{}}}, App: [][][]Ann{}}
+		}
+	}()
+	return runCase(c)
+}
+
 // ---- random abstract histories (input vocabulary only) --------------------------------------
 
 func randomHistory(rng *rand.Rand, nk, maxV, maxP, maxDt, ncs int) (Hist, Opt) {
@@ -762,6 +773,6 @@ func main() {
 		if len(c.Kt) != len(c.H.Kids) || c.Lay.Unit <= 0 || c.Lay.VStep <= 0 || c.Lay.Runs <= 0 {
 			vio.Must(fmt.Errorf("bad layout in case %d", i), "case")
 		}
-		return Rec{Case: line, Got: runCase(&c)}
+		return Rec{Case: line, Got: runCaseRecover(&c)}
 	})
 }
